@@ -58,7 +58,7 @@ NAMES = [b"a", b"b.txt", b"c..d", b"e f", b"g\xc3\xa9", b"sub", b"deep", b"x.y.z
 HOSTILE_REL = [b"../esc", b"../../escaped_dir", b"a/../../esc", b"/abs/esc", b"..", b"sub/../../../esc", b"..\\esc", b"a/..", b""]
 HOSTILE_ID = [b"../../../escaped_id", b"../x", b"a/b", b"..", b".", b"a\\b", b"/abs"]
 ESCAPING_ID = [b"../../../escaped_id", b"../../victim", b"../../../../deep/er"]   # leave the out dir from <out>/.thruflux_resumedata/
-HOSTILE_ROOT = [b"../esc", b"../../victim", b"a/../../b", b".."]
+HOSTILE_ROOT = [b"../esc", b"../../victim", b"a/../../b", b"..", b" ..", b".. ", b"\t..\n", b" ../sibling", b"../ x", b". ./..", b" "]   # also: parent segments padded with white space
 
 
 def gen_hostile(ctx):
@@ -154,6 +154,13 @@ def gen_hostile(ctx):
                 items = [{"p": b"other".hex(), "n": 3, "dir": False, "id": b"1122".hex()}] + ([good, bad] if later else [bad, good])
                 cases.append({"mode": "hostile", "name": f"aimed-dup-id-{'later' if later else 'earlier'}-{'noroot' if noroot else 'root'}", "root": b"tree".hex(), "items": items,
                               "begins": [{"p": b"dup.bin".hex(), "n": 70, "chunk": 64}], "noroot": noroot, "resume": True, "_kind": "dup-path-hostile-id"})
+    # aimed: every hostile root in both root modes with resume on (rooted mode puts the tree under the root name; flat mode still
+    # derives the fallback metadata location from it)
+    for hr in HOSTILE_ROOT:
+        for noroot in (True, False):
+            cases.append({"mode": "hostile", "name": f"aimed-root-{hr.hex()[:12]}-{'noroot' if noroot else 'root'}", "root": hr.hex(),
+                          "items": [{"p": b"d".hex(), "n": 0, "dir": True, "id": b"".hex()}, {"p": b"d/f.bin".hex(), "n": 70, "dir": False, "id": b"00aa11bb".hex()}],
+                          "begins": [{"p": b"d/f.bin".hex(), "n": 70, "chunk": 64}], "noroot": noroot, "resume": True, "_kind": "root-escape-aimed"})
     # aimed: an id that climbs out of the resume-data directory on every kind of item - an empty file, a one-byte file, a
     # directory - with resume on (the receiver derives a metadata path from the id of every file it begins)
     for noroot in (True, False):
